@@ -130,6 +130,26 @@ fn digits_str(ds: &[i64]) -> String {
     ds.iter().map(|d| ['a', 'ñ', '🦀'][*d as usize]).collect()
 }
 
+/// kind "record": a user aggregate made comparable with impl_cmp!, const_eq!, const_cmp! and try_equal!
+pub struct Rec3<'a> {
+    a: i128,
+    b: &'a str,
+    c: Option<u8>,
+}
+konst::impl_cmp! {
+    impl['a] Rec3<'a>;
+    pub const fn const_eq(&self, other: &Self) -> bool {
+        const_eq!(self.a, other.a) && const_eq!(self.b, other.b) && const_eq!(self.c, other.c)
+    }
+    pub const fn const_cmp(&self, other: &Self) -> Ordering {
+        konst::try_equal!(const_cmp!(self.a, other.a));
+        konst::try_equal!(const_cmp!(self.b, other.b));
+        konst::try_equal!(const_cmp!(self.c, other.c))
+    }
+}
+#[derive(PartialEq, Eq, PartialOrd, Ord)]
+struct StdRec3<'a>(i128, &'a str, Option<u8>);
+
 pub fn replay(s: &mut Summary, v: &V) {
     use konst::slice::cmp as sc;
     use konst::primitive::cmp as pc;
@@ -175,6 +195,25 @@ pub fn replay(s: &mut Summary, v: &V) {
             let p2 = std::panic::catch_unwind(|| assertc_ne!(ls, rs)).is_err();
             s.check("assertc_eq!/str panics", json!(p1), &json!(!eqb));
             s.check("assertc_ne!/str panics", json!(p2), &json!(eqb));
+        }
+        ("record", false) => {
+            let l = ints_of(&v["l"]);
+            let r = ints_of(&v["r"]);
+            let names = ["a", "ñ", "🦀"];
+            let mk = |d: &[i64]| Rec3 { a: [i128::MIN, 0, i128::MAX][d[0] as usize], b: names[d[1] as usize], c: [None, Some(0), Some(255)][d[2] as usize] };
+            let (x, y) = (mk(&l), mk(&r));
+            s.check("impl_cmp!/const_eq!", json!(const_eq!(x, y)), &exp_eq);
+            s.check("impl_cmp!/const_cmp!", json!(ord_s(const_cmp!(x, y))), &exp_cmp);
+            s.check("impl_cmp!/coerce_to_cmp!.const_eq", json!(konst::coerce_to_cmp!(x).const_eq(&y)), &exp_eq);
+            s.check("impl_cmp!/coerce_to_cmp!.const_cmp", json!(ord_s(konst::coerce_to_cmp!(&x).const_cmp(&y))), &exp_cmp);
+            s.check("impl_cmp!/method", json!(ord_s(x.const_cmp(&y))), &exp_cmp);
+            // Option of the user type through the _for macros
+            let (ox, oy) = (Some(&x), Some(&y));
+            s.check("const_cmp_for!(option)/user", json!(ord_s(konst::const_cmp_for!(option; ox, oy, |a, b| a.const_cmp(b)))), &exp_cmp);
+            s.check("const_eq_for!(option)/user", json!(konst::const_eq_for!(option; ox, oy, |a, b| a.const_eq(b))), &exp_eq);
+            let (sx, sy) = (StdRec3(x.a, x.b, x.c), StdRec3(y.a, y.b, y.c));
+            s.guard("std derive(Ord)/record", json!(ord_s(sx.cmp(&sy))), &exp_cmp);
+            s.guard("std derive(Eq)/record", json!(sx == sy), &exp_eq);
         }
         ("flat", true) => {
             // Option<&[T]> and Option<&str>
